@@ -37,3 +37,10 @@ def oracle(line, out):
 
 def in_domain(line):
     return True
+
+
+def extra_evidence(lines=None, model_out=None, impl_out=None):
+    """`fixpoint` / `every_further_cycle` speak about definitions in `C09.DefWF`: report how many of the definitions the
+    library held in this run the proved-sound membership test accepts."""
+    from harness import core
+    return c09.regime_coverage(lines, impl_out, core.run_model)
